@@ -116,10 +116,8 @@ impl<W, R, T> CompilationScope<'_, W, R, T> {
             ret: rtype,
             short_circuit_overloads: false,
         };
-        let defaults = param_static_defaults
-            .into_iter()
-            .filter_map(|s| s.map(|s| self.compile(s)))
-            .collect::<Result<_, _>>()
+        let defaults = self
+            .compile_defaults(param_static_defaults, &spec.params)
             .map_err(|e| e.trace(input))?;
         let param_len = param_names.len();
         Ok(ParsedFunctionHeader {
@@ -133,6 +131,29 @@ impl<W, R, T> CompilationScope<'_, W, R, T> {
             gen_param_names,
             specific_gen_params,
         })
+    }
+
+    /// compiles the default values of a function's optional parameters, each must be assignable
+    /// to its parameter's type
+    fn compile_defaults(
+        &mut self,
+        defaults: Vec<Option<XStaticExpr<W, R, T>>>,
+        params: &[XFuncParamSpec],
+    ) -> Result<Vec<XExpr<W, R, T>>, CompilationError> {
+        let mut ret = Vec::new();
+        for (default, param) in defaults.into_iter().zip(params) {
+            let Some(default) = default else { continue };
+            let compiled = self.compile(default)?;
+            let default_type = self.type_of(&compiled)?;
+            if param.type_.bind_in_assignment(&default_type).is_none() {
+                return Err(CompilationError::InvalidArgumentType {
+                    expected: param.type_.clone(),
+                    got: default_type,
+                });
+            }
+            ret.push(compiled);
+        }
+        Ok(ret)
     }
 
     pub(crate) fn feed(
@@ -806,10 +827,8 @@ impl<W, R, T> CompilationScope<'_, W, R, T> {
                         })
                         .multiunzip();
                 let param_len = param_specs.len();
-                let defaults = param_static_defaults
-                    .into_iter()
-                    .filter_map(|s| s.map(|s| self.compile(s)))
-                    .collect::<Result<_, _>>()
+                let defaults = self
+                    .compile_defaults(param_static_defaults, &param_specs)
                     .map_err(|e| e.trace(&input))?;
                 let mut subscope = CompilationScope::from_parent_lambda(
                     self,
